@@ -17,6 +17,8 @@ CONSTANTS
   MaxTimeout = 0
   MaxWrites = 2
   WLens = {4, 8}
+  FrameOK <- FrameAny
+  KeepHist = TRUE
 VIEW View
 INVARIANTS TypeOK InOrder NoLoss FramingInv BufferInv PongsOk NoPartialPong WritesOk UnitsOk DiscOk EmitInv
 PROPERTIES ErrNoLoss
